@@ -38,14 +38,10 @@ theorem inv_move {s s' : State} {a b : Nat} (hi : Inv s) (h : step s (.move a b)
               refine inv_setSlot2 hi hc hbl hab ?_ hp1
               rw [hsa, hb]; exact d
 
-/-- the only operation that can break the invariant: move-assigning a new layout onto a `SparseLayout` object
-    that still holds arrays (`SparseLayout::operator=(SparseLayout&&)` does not release them) -/
-def leakGuard (s : State) : Op → Prop
-  | .lay l _ => layIds (s.lay l) = []
-  | _ => True
+theorem layIds_layoutInds (o : Option Layout) : idsOf (layoutInds o) = layIds o := by
+  cases o <;> rfl
 
-theorem inv_lay {s s' : State} {l a : Nat} (hi : Inv s) (hg : leakGuard s (.lay l a))
-    (h : step s (.lay l a) = .ok s') : Inv s' := by
+theorem inv_lay {s s' : State} {l a : Nat} (hi : Inv s) (h : step s (.lay l a) = .ok s') : Inv s' := by
   unfold step at h
   simp only at h
   split at h
@@ -61,12 +57,18 @@ theorem inv_lay {s s' : State} {l a : Nat} (hi : Inv s) (hg : leakGuard s (.lay 
       · split at h
         · cases h
         · rename_i p1 hinc
-          injection h with h; subst h
-          obtain ⟨d, hp1⟩ := delta_incrAll hinc hi.1
-          refine inv_setLay hi hl ?_ hp1
-          unfold leakGuard at hg
-          rw [hg]
-          exact d
+          obtain ⟨d1, hp1⟩ := delta_incrAll hinc hi.1
+          split at h
+          · cases h
+          · rename_i p2 hrel
+            obtain ⟨d2, hp2⟩ := delta_releaseAll hrel hp1
+            injection h with h; subst h
+            refine inv_setLay hi hl ?_ hp2
+            rw [layIds_layoutInds] at d2
+            intro j
+            have := d1 j; have := d2 j
+            simp only [layIds, List.count_nil] at *
+            omega
 
 theorem inv_mlay {s s' : State} {a l kind dt : Nat} {fill : Int} (hi : Inv s)
     (h : step s (.mlay a l kind dt fill) = .ok s') : Inv s' := by
